@@ -80,4 +80,14 @@ for t in range(60):
     o2 = lentil.detector.adc(e2, np.abs(np.atleast_1d(gain)).ravel()[:1] if form in (0,) else np.abs(coeffs[:, 0, 0]), saturation_capacity=cap if cap else None)
     ok = ok and np.all(np.diff(o2.ravel()) >= 0)
     c.check(ok, {'form': form, 'K': K, 'cap': cap})
+for dt in (np.uint8, np.uint16, np.uint32, np.int16, np.int32, np.float32, np.float64):
+    with c.case({'dtype': str(np.dtype(dt))}):
+        img = np.array([[-3.0, -0.4, 0.0, 0.6], [1.0, 7.9, 12.2, 14.0]])      # every expected value fits uint8
+        for gain in (1.0, 0.5, np.array([0.25, 1.0])):
+            Kc = np.atleast_1d(gain).size
+            co = np.atleast_1d(gain)
+            ref = np.maximum(np.floor(sum(co[d_] * img ** (Kc - d_) for d_ in range(Kc))), 0)
+            out = lentil.detector.adc(img, gain, dtype=dt)
+            c.check(bool(out.dtype == np.dtype(dt) and np.array_equal(out.astype(float), ref)),
+                    {'dtype': str(np.dtype(dt)), 'gain': np.atleast_1d(gain).tolist(), 'got': out.ravel().tolist()[:4], 'expected': ref.ravel().tolist()[:4]})
 emit([a, b, c])
